@@ -144,6 +144,35 @@ def facts_dir(run="r1"):
     return d
 
 
+def corpus_facts(mode="base", seed=0):
+    """Generate the Level-B corpus for the current tree, compile it under the driver and return
+    (facts dir | None, crate dir, cargo log).  Cached per /repo tree hash + generator + mode/seed."""
+    ensure_engines()
+    h = tree_hash(extra_dirs=(os.path.join(VERIF, "tools"),))
+    base = os.path.join(CACHE, h, "corpus-%s-%d" % (mode, seed))
+    crate = os.path.join(base, "crate")
+    fdir = os.path.join(base, "facts")
+    done = os.path.join(base, "DONE")
+    log = os.path.join(base, "cargo.log")
+    os.makedirs(os.path.join(CACHE, h), exist_ok=True)
+    with open(os.path.join(CACHE, h, "corpus-%s-%d.lock" % (mode, seed)), "w") as lk:
+        fcntl.flock(lk, fcntl.LOCK_EX)
+        if not os.path.exists(done):
+            if os.path.isdir(base):
+                shutil.rmtree(base)
+            os.makedirs(fdir)
+            g = _run([sys.executable, os.path.join(VERIF, "tools", "gen_corpus.py"), crate, mode, str(seed)], VERIF, {"VERIF_REPO": REPO})
+            if g.returncode != 0:
+                raise SystemExit("CORPUS-GENERATOR-FAILED\n" + g.stdout[-2000:])
+            shutil.copy(os.path.join(REPO, "Cargo.lock"), os.path.join(crate, "Cargo.lock"))
+            p = _driver_run(fdir, crate, ["--lib"], log=log)
+            with open(done, "w") as f:
+                f.write("rc=%d\n" % p.returncode)
+        rc = int(open(done).read().strip().split("=")[1])
+    text = open(log).read() if os.path.exists(log) else ""
+    return (fdir if rc == 0 else None), crate, text
+
+
 def _gc_cache(keep, max_entries=6):
     ents = [e for e in os.listdir(CACHE) if os.path.isdir(os.path.join(CACHE, e)) and e != keep]
     ents.sort(key=lambda e: os.path.getmtime(os.path.join(CACHE, e)))
